@@ -55,7 +55,7 @@ def _key(path):
             return os.path.normpath(p)
         if _DISK is not None and _DISK.actor != "harness" and _DISK.relative and not os.path.isabs(p):
             # while library code runs, the process's working directory is /simfs/cwd
-            return os.path.normpath(ROOT + "cwd/" + p)
+            return os.path.normpath(_DISK.cwd + p)
     return None
 
 
@@ -210,9 +210,11 @@ class SimDisk:
         self.now = lambda: 0.0  # simulated clock, for modification times
         self.mtime_gran = 1e-9  # timestamp granularity of the simulated volume (1 ns, 1 s, 2 s)
         self.mtimes = {}  # id(inode) -> mtime in ns
-        self.relative = False  # map relative paths to /simfs/cwd while library code runs
+        self.relative = False  # map relative paths to the simulated working directory while library code runs
+        self.cwd = ROOT + "cwd/"  # the process's working directory (os.chdir moves it)
         self.dirs = {os.path.normpath(ROOT), os.path.normpath(ROOT + "cwd"), os.path.normpath(ROOT + "cwd/~"),
-                     os.path.normpath(ROOT + "home")}
+                     os.path.normpath(ROOT + "home"), os.path.normpath(ROOT + "elsewhere"),
+                     os.path.normpath(ROOT + "elsewhere/~")}
         self.n_reads = 0
         self.bytes_read = 0
         self.stat_calls = 0
